@@ -183,12 +183,26 @@ class Run:
                 todo.append((u, hs))
         if not todo:
             return
-        with ThreadPoolExecutor(max_workers=min(4, len(todo))) as ex:
-            futs = [ex.submit(self._run_kani_unit, u, hs) for (u, hs) in todo]
-            for f in futs:
-                f.result()
-        # only after every unit of the property is done (units share the dependency cache)
-        prune_first_party(os.path.join(CACHE_ROOT, self.prop))
+        # concurrent runs of the same property share the dependency cache: hold a shared lock while using it and
+        # prune first-party build output only when no other run holds it
+        import fcntl
+        os.makedirs(CACHE_ROOT, exist_ok=True)
+        lockf = open(os.path.join(CACHE_ROOT, self.prop + ".lock"), "w")
+        fcntl.flock(lockf, fcntl.LOCK_SH)
+        try:
+            with ThreadPoolExecutor(max_workers=min(4, len(todo))) as ex:
+                futs = [ex.submit(self._run_kani_unit, u, hs) for (u, hs) in todo]
+                for f in futs:
+                    f.result()
+        finally:
+            fcntl.flock(lockf, fcntl.LOCK_UN)
+            try:
+                fcntl.flock(lockf, fcntl.LOCK_EX | fcntl.LOCK_NB)
+                prune_first_party(os.path.join(CACHE_ROOT, self.prop))
+                fcntl.flock(lockf, fcntl.LOCK_UN)
+            except OSError:
+                pass
+            lockf.close()
 
     def _prepare_ws(self, sc, u):
         injections = []
